@@ -93,6 +93,7 @@ def _nonfinite(obs):
 def correspondence(ctx):
     res = CorrResult()
     corpus = [c["case"] for c in fc.load_corpus(ID)]
+    corpus = corpus + fc.minimal_family()
     polys = [c for c in corpus if c["kind"] == "poly"] + _poly_stream(ctx, ctx.n(95, 1000))
     curves = [c for c in corpus if c["kind"] == "curve"] + _curve_stream(ctx, ctx.n(40, 500))
     pterms, cterms, pidx, cidx = [], [], [], []
@@ -378,7 +379,7 @@ def _fresh_cases(ctx):
 def search(ctx, suspects, budget):
     t0 = time.time()
     out, seen = [], set()
-    todo = [s["case"] for s in suspects if s.get("case")] + [c["case"] for c in fc.load_corpus(ID)]
+    todo = [s["case"] for s in suspects if s.get("case")] + [c["case"] for c in fc.load_corpus(ID)] + fc.minimal_family()
     fresh = _fresh_cases(ctx)
     n = 0
     cap = ctx.n(250, 6000)
